@@ -89,7 +89,8 @@ class Prop(BaseProp):
     ASSUMPTIONS = ["CMake 3.25.1 is the reference for argument boundaries", "legacy arguments (embedded quotes, $(...), "
                    "glued to a preceding quoted/bracket argument) are skipped and counted",
                    "a file on which the reference lexer and CMake disagree is counted as a reference disagreement and not "
-                   "asserted on", "corpus files that are not CMake (reference lexer says INVALID) are excluded"]
+                   "asserted on", "corpus files that are not CMake (reference lexer says INVALID) are excluded",
+                   "CR LF line ends are read as LF (CMake's input layer), also inside multi-line arguments, before values are compared"]
     HEADLINE = ["programs", "commands_compared", "corpus_files_processed", "corpus_commands_compared",
                 "disagreements_checked", "reference_disagreements"]
 
